@@ -15,6 +15,7 @@ open Modbus Modbus.Model
 def tokEv (s : String) : Option Ev :=
   if s == "t" then some .timeout
   else if s == "c" || s == "cd" then some .cancel      -- cd: the caller's context ends by its deadline
+  else if s.startsWith "td:" then (unhex (s.drop 3).toString).map .tdata   -- data together with a deadline error
   else if s.startsWith "d:" then (unhex (s.drop 2).toString).map .data
   else if s.startsWith "e:" then (unhex (s.drop 2).toString).map .eof
   else if s.startsWith "x:" then (unhex (s.drop 2).toString).map .ioerr
@@ -148,13 +149,23 @@ def exceptionReply (fr : Framing) (tid : UInt16) (r : Req) (reply : Bytes) : Opt
 def dataOf (script : List Ev) : Bytes :=
   script.flatMap fun e => match e with
     | .data b => b
+    | .tdata b => b
     | _ => []
 
+/-- a fragmentation of a reply: data reads, empty timed-out reads, data that arrives together with a deadline error,
+and possibly a last read that returns the rest together with EOF (the peer closes right after replying) -/
 def onlyDataAndTimeouts (script : List Ev) : Bool :=
-  script.all fun e => match e with
+  let body := match script.getLast? with
+    | some (.eof _) => script.dropLast
+    | _ => script
+  body.all fun e => match e with
     | .data _ => true
+    | .tdata _ => true
     | .timeout => true
     | _ => false
+
+def fragData (script : List Ev) : Bytes :=
+  dataOf script ++ (match script.getLast? with | some (.eof b) => b | _ => [])
 
 def outcomeOf (out : String) : String := (out.splitOn " | ").headD ""
 
@@ -167,7 +178,7 @@ def judgeC07 (op : DoOp) (out : String) : Expect :=
   | none => .free
   | some (r, _, _) =>
     if op.nilReq || op.notConnected || op.writeFails then .free else
-    if !onlyDataAndTimeouts op.script || dataOf op.script != op.reply then .noPanic else
+    if !onlyDataAndTimeouts op.script || fragData op.script != op.reply then .noPanic else
     if op.kind == .serial && op.flusher == .failing then .noPanic else
     let fr := op.kind.framing
     match wellFormedReply fr op.tid r op.reply with
@@ -183,7 +194,7 @@ def kfC07 (op : DoOp) : Option String :=
   match op.request with
   | none => none
   | some (r, _, expected) =>
-    if !onlyDataAndTimeouts op.script || dataOf op.script != op.reply then none else
+    if !onlyDataAndTimeouts op.script || fragData op.script != op.reply then none else
     let fr := op.kind.framing
     if (wellFormedReply fr op.tid r op.reply).isSome && expected != op.reply.length then some ("KF-C07-" ++ fcTag r op.kind)
     else if (exceptionReply fr op.tid r op.reply).isSome && expected < op.reply.length then some ("KF-C07-" ++ fcTag r op.kind ++ "-exception")
@@ -204,6 +215,7 @@ def judgeC08 (op : DoOp) (out : String) : Expect :=
     let boundaries := (op.script.foldl (fun (acc : List Nat × Nat) e =>
       match e with
       | .data b => (acc.1 ++ [acc.2 + b.length], acc.2 + b.length)
+      | .tdata b => (acc.1 ++ [acc.2 + b.length], acc.2 + b.length)
       | .eof b => (acc.1 ++ [acc.2 + b.length], acc.2 + b.length)
       | _ => acc) ([], 0)).1
     let complete := op.reply != [] && got.take op.reply.length == op.reply && boundaries.contains op.reply.length
@@ -238,6 +250,7 @@ def judgeC12 (op : DoOp) (out : String) : Expect :=
   let boundaries := (op.script.foldl (fun (acc : List Nat × Nat) e =>
     match e with
     | .data b => (acc.1 ++ [acc.2 + b.length], acc.2 + b.length)
+    | .tdata b => (acc.1 ++ [acc.2 + b.length], acc.2 + b.length)
     | .eof b => (acc.1 ++ [acc.2 + b.length], acc.2 + b.length)
     | _ => acc) ([], 0)).1
   if boundaries.any (fun n => n ≥ 4 && n < got.length && endsWithSpecCrc (got.take n)) then .noPanic else
@@ -280,5 +293,26 @@ def DoOp.judge (prop : String) (op : DoOp) (out : String) : Expect :=
   else if prop == "C12" then judgeC12 op out
   else if prop == "C19" then judgeC19 op out
   else .noPanic
+
+/-! ## `dor`: the constructors without configuration (`NewTCPClient()`, `NewRTUClient()`) against a loopback peer
+
+     dor <t|r> <request spec> <reply hex>
+  The peer reads the request and writes the reply at once (however TCP fragments it, the outcome is the one of a single
+  read: C07). Only the outcome is printed. -/
+
+structure DorOp where
+  inner : DoOp
+
+def parseDorOp (ts : List String) : Option DorOp :=
+  match ts with
+  | ["dor", k, req, reply] => (parseDoOp ["do", k, "0", "n", req, reply, "d:" ++ reply]).map DorOp.mk
+  | _ => none
+
+def DorOp.modelOut (op : DorOp) : String := outcomeOf op.inner.modelOut
+
+def DorOp.judge (prop : String) (op : DorOp) (out : String) : Expect :=
+  if prop == "C07" then judgeC07 op.inner out else .noPanic
+
+def DorOp.kf (prop : String) (op : DorOp) : Option String := if prop == "C07" then kfC07 op.inner else none
 
 end Modbus.Driver
